@@ -448,6 +448,7 @@ func (c19) Run(t *testing.T, cs Case, trace bool) *Outcome {
 					h.expect = h.snap()
 				})
 				out.probe("scribble:" + h.origin)
+				out.fault("caller-scribble:" + h.origin)
 			case "mdcopy":
 				if len(bags[ci]) == 0 {
 					return
